@@ -229,18 +229,218 @@ theorem npe_returns {W : Mat N N K} (hW : ∀ r c, W r c = W c r) (F : Mat N D K
   show ((mirrorUpperD (weightSumD W F)).get, (mirrorUpperD (sampleSumD F fun _ => 1)).get) = _
   rw [mirror_weightSum hW, mirror_sampleSum]
 
-/-- LLTSA returns `(2 · Fᵀ W F, Fᵀ H F)`, both triangles (no hypothesis on `N`: for `N = 0` everything is `0`) -/
-theorem lltsa_returns {W : Mat N N K} (hW : ∀ r c, W r c = W c r) (F : Mat N D K) :
-    lltsaProblem W F = (fun i j => 2 * fullForm W F i j, fullForm centering F) := by
-  show ((mirrorUpperD (weightSumD W F)).get,
-    (mirrorUpperD (rankUpdate1D (sampleSumD F fun _ => 1) (DVec.ofFn (featureSum F)).get ((-1) / (N : K)))).get) = _
-  rw [mirror_weightSum hW, mirror_centredSampleSum]
-
 /-- LPP returns `(2 · Fᵀ L F, Fᵀ diag(Dg) F)`, both triangles -/
 theorem lpp_returns {L : Mat N N K} (hL : ∀ r c, L r c = L c r) (Dg : Vec N K) (F : Mat N D K) :
     lppProblem L Dg F = (fun i j => 2 * fullForm L F i j, fullDiagForm Dg F) := by
   show ((mirrorUpperD (weightSumD L F)).get, (mirrorUpperD (sampleSumD F Dg)).get) = _
   rw [mirror_weightSum hL, mirror_sampleSum]
+
+/-! ### LLTSA: the alignment matrix acts on the centred features (fix F-LLTSA-SHIFT) -/
+
+/-- `H W H` with `H = 1 − 11ᵀ/N` the centring matrix -/
+def centredForm (W : Mat N N K) : Mat N N K :=
+  fun r c => ∑ a, ∑ b, centering r a * W a b * centering b c
+
+theorem centredForm_toM (W : Mat N N K) :
+    Mat.toM (centredForm W) = Mat.toM (centering : Mat N N K) * Mat.toM W * Mat.toM (centering : Mat N N K) := by
+  ext r c
+  simp only [Mat.toM_apply, centredForm, Matrix.mul_apply, Finset.sum_mul]
+  exact Finset.sum_comm
+
+theorem rowSums_apply (W : Mat N N K) (r : Fin N) : rowSums W r = ∑ c, W r c := by
+  simp only [rowSums, sumFin_eq_sum]
+
+theorem weightedFeatureSum_apply (W : Mat N N K) (F : Mat N D K) (j : Fin D) :
+    weightedFeatureSum W F j = ∑ r, rowSums W r * F r j := by
+  simp only [weightedFeatureSum, sumFin_eq_sum]
+
+omit [Field K] in
+theorem transpose_of_symm {W : Mat N N K} (hW : ∀ r c, W r c = W c r) : Mat.transpose W = W := by
+  funext r c
+  exact hW c r
+
+/-- `H W H` entrywise: `W − 1 (1ᵀW)/N − (W1) 1ᵀ/N + (1ᵀW1)/N² 11ᵀ` (any `N`) -/
+theorem centredForm_expand (W : Mat N N K) (r c : Fin N) :
+    centredForm W r c
+      = W r c - rowSums (Mat.transpose W) c / (N : K) - rowSums W r / (N : K)
+        + (∑ a, rowSums W a) / ((N : K) * (N : K)) := by
+  have inner : ∀ a, ∑ b, W a b * centering b c = W a c - rowSums W a / (N : K) := by
+    intro a
+    simp only [centering, mul_sub, Finset.sum_sub_distrib, mul_ite, mul_one, mul_zero, Finset.sum_ite_eq',
+      Finset.mem_univ, if_true, mul_one_div, ← Finset.sum_div, rowSums_apply]
+  have outer : ∀ g : Fin N → K, ∑ a, centering r a * g a = g r - (∑ a, g a) / (N : K) := by
+    intro g
+    simp only [centering, sub_mul, Finset.sum_sub_distrib, ite_mul, one_mul, zero_mul, Finset.sum_ite_eq,
+      Finset.mem_univ, if_true, ← Finset.mul_sum]
+    ring
+  unfold centredForm
+  simp only [mul_assoc, ← Finset.mul_sum, inner]
+  rw [outer]
+  simp only [Finset.sum_sub_distrib, ← Finset.sum_div, rowSums_apply, Mat.transpose]
+  ring
+
+theorem centredForm_symm {W : Mat N N K} (hW : ∀ r c, W r c = W c r) (r c : Fin N) :
+    centredForm W r c = centredForm W c r := by
+  rw [centredForm_expand, centredForm_expand, transpose_of_symm hW, hW r c]
+  ring
+
+/-- the double loop of rank-two updates without any symmetry assumption: `Fᵀ W F + (Fᵀ W F)ᵀ` -/
+theorem weightSum_general (W : Mat N N K) (F : Mat N D K) (i j : Fin D) :
+    (∑ c, ∑ r, W r c * (F r i * F c j + F c i * F r j)) = fullForm W F i j + fullForm W F j i := by
+  rw [fullForm_apply, fullForm_apply]
+  simp only [mul_add, Finset.sum_add_distrib]
+  congr 1
+  · rw [Finset.sum_comm]
+    exact Finset.sum_congr rfl fun r _ => Finset.sum_congr rfl fun c _ => by ring
+  · rw [Finset.sum_comm]
+    exact Finset.sum_congr rfl fun r _ => Finset.sum_congr rfl fun c _ => by ring
+
+/-- `Fᵀ (H W H) F = Fᵀ W F − (u sᵀ + s u'ᵀ)/N + (1ᵀW1)/N² s sᵀ`, `s = Σ x_r`, `u = Σ (W1)_r x_r`, `u' = Σ (Wᵀ1)_r x_r`
+    (any `W`, any `N`) -/
+theorem fullForm_centredForm (W : Mat N N K) (F : Mat N D K) (i j : Fin D) :
+    fullForm (centredForm W) F i j
+      = fullForm W F i j
+        - (weightedFeatureSum W F i * featureSum F j
+            + featureSum F i * weightedFeatureSum (Mat.transpose W) F j) / (N : K)
+        + (∑ a, rowSums W a) / ((N : K) * (N : K)) * (featureSum F i * featureSum F j) := by
+  rw [fullForm_apply, fullForm_apply, weightedFeatureSum_apply, weightedFeatureSum_apply, featureSum_apply,
+    featureSum_apply]
+  simp only [centredForm_expand]
+  generalize (∑ a, rowSums W a) = T
+  rw [Finset.sum_mul_sum, Finset.sum_mul_sum, Finset.sum_mul_sum]
+  simp only [Finset.mul_sum, Finset.sum_div, ← Finset.sum_add_distrib, ← Finset.sum_sub_distrib]
+  exact Finset.sum_congr rfl fun r _ => Finset.sum_congr rfl fun c _ => by ring
+
+/-- the accumulated upper triangle of the LLTSA `lhs` before mirroring: the sparse loop followed by
+    `rankUpdate(weighted_sum, sum, -2/N)` and `rankUpdate(sum, 2 * w_ones.sum() / (N*N))` -/
+def lltsaLhsUpper (W : Mat N N K) (F : Mat N D K) : Mat D D K :=
+  rankUpdate1
+    (rankUpdate2 (weightSumD W F).get (weightedFeatureSum W F) (featureSum F) ((-((2 : Nat) : K)) / (N : K)))
+    (featureSum F) (((2 : Nat) : K) * sumFin N (rowSums W) / ((N : K) * (N : K)))
+
+theorem lltsaProblem_fst (W : Mat N N K) (F : Mat N D K) :
+    (lltsaProblem W F).1 = Mat.upperView (lltsaLhsUpper W F) := by
+  show (mirrorUpperD _).get = _
+  rw [mirrorUpperD_get]
+  simp only [rankUpdate1D, rankUpdate2D, DMat.get_ofFn, DVec.get_ofFn]
+  rfl
+
+theorem lltsaProblem_snd (W : Mat N N K) (F : Mat N D K) :
+    (lltsaProblem W F).2 = fullForm centering F := by
+  show (mirrorUpperD (rankUpdate1D (sampleSumD F fun _ => 1) (DVec.ofFn (featureSum F)).get ((-1) / (N : K)))).get = _
+  rw [mirror_centredSampleSum]
+
+/-- what the code literally accumulates (no symmetry assumed, any `N`) -/
+theorem lltsaLhsUpper_get (W : Mat N N K) (F : Mat N D K) (i j : Fin D) :
+    lltsaLhsUpper W F i j
+      = if i ≤ j then
+          fullForm W F i j + fullForm W F j i
+            - 2 / (N : K) * (weightedFeatureSum W F i * featureSum F j + featureSum F i * weightedFeatureSum W F j)
+            + 2 * (∑ r, rowSums W r) / ((N : K) * (N : K)) * (featureSum F i * featureSum F j)
+        else 0 := by
+  simp only [lltsaLhsUpper, rankUpdate1, rankUpdate2, weightSumD_get, weightSum_general, sumFin_eq_sum,
+    Nat.cast_ofNat]
+  split
+  · ring
+  · rfl
+
+/-- for symmetric `W` the accumulated triangle is that of `2 · Fᵀ (H W H) F` (any `N`) -/
+theorem lltsaLhsUpper_symm {W : Mat N N K} (hW : ∀ r c, W r c = W c r) (F : Mat N D K) :
+    lltsaLhsUpper W F = fun i j => if i ≤ j then 2 * fullForm (centredForm W) F i j else 0 := by
+  funext i j
+  rw [lltsaLhsUpper_get]
+  split
+  · rw [fullForm_centredForm, transpose_of_symm hW, fullForm_symm hW F j i]
+    ring
+  · rfl
+
+/-- LLTSA returns `(2 · Fᵀ (H W H) F, Fᵀ H F)`, both triangles (true for any `N`, also when `(N : K) = 0`) -/
+theorem lltsa_returns {W : Mat N N K} (hW : ∀ r c, W r c = W c r) (F : Mat N D K) :
+    lltsaProblem W F = (fun i j => 2 * fullForm (centredForm W) F i j, fullForm centering F) := by
+  have h1 : (lltsaProblem W F).1 = fun i j => 2 * fullForm (centredForm W) F i j := by
+    rw [lltsaProblem_fst, lltsaLhsUpper_symm hW]
+    exact upperView_upperOnly (fun i j => 2 * fullForm (centredForm W) F i j)
+      (fun i j => by rw [fullForm_symm (centredForm_symm hW)])
+  exact Prod.ext h1 (lltsaProblem_snd W F)
+
+/-! ### consequences: constant eigenvector, translation invariance -/
+
+/-- if `W 1 = σ 1` (the alignment matrix: `σ` = the nullspace shift) and `W` is symmetric then `H W H = W − (σ/N) 11ᵀ`
+    (any `N`) -/
+theorem centredForm_of_const_eigvec {W : Mat N N K} {σ : K} (hσ : ∀ r, rowSums W r = σ)
+    (hW : ∀ r c, W r c = W c r) :
+    centredForm W = fun r c => W r c - σ / (N : K) := by
+  funext r c
+  rw [centredForm_expand, transpose_of_symm hW]
+  simp only [hσ, Finset.sum_const, Finset.card_univ, Fintype.card_fin, nsmul_eq_mul]
+  by_cases hN : (N : K) = 0
+  · simp [hN]
+  · field_simp
+    ring
+
+theorem centering_row_sum (hN : (N : K) ≠ 0) (r : Fin N) : ∑ c, (centering : Mat N N K) r c = 0 := by
+  simp only [centering, Finset.sum_sub_distrib, Finset.sum_ite_eq, Finset.mem_univ, if_true, Finset.sum_const,
+    Finset.card_univ, Fintype.card_fin, nsmul_eq_mul]
+  rw [mul_one_div, div_self hN, sub_self]
+
+theorem centering_symm (r c : Fin N) : (centering : Mat N N K) r c = centering c r := by
+  simp only [centering, eq_comm]
+
+theorem centering_col_sum (hN : (N : K) ≠ 0) (c : Fin N) : ∑ r, (centering : Mat N N K) r c = 0 := by
+  simp only [centering_symm _ c]
+  exact centering_row_sum hN c
+
+theorem centredForm_row_sum (hN : (N : K) ≠ 0) (W : Mat N N K) (r : Fin N) : ∑ c, centredForm W r c = 0 := by
+  unfold centredForm
+  rw [Finset.sum_comm]
+  refine Finset.sum_eq_zero fun a _ => ?_
+  rw [Finset.sum_comm]
+  refine Finset.sum_eq_zero fun b _ => ?_
+  rw [← Finset.mul_sum, centering_row_sum hN, mul_zero]
+
+theorem centredForm_col_sum (hN : (N : K) ≠ 0) (W : Mat N N K) (c : Fin N) : ∑ r, centredForm W r c = 0 := by
+  unfold centredForm
+  rw [Finset.sum_comm]
+  refine Finset.sum_eq_zero fun a _ => ?_
+  rw [Finset.sum_comm]
+  refine Finset.sum_eq_zero fun b _ => ?_
+  simp only [mul_assoc]
+  rw [← Finset.sum_mul, centering_col_sum hN, zero_mul]
+
+/-- a form `Fᵀ M F` with `M 1 = 0` and `1ᵀ M = 0` does not see a translation of the samples -/
+theorem fullForm_translate {M : Mat N N K} (hrow : ∀ r, ∑ c, M r c = 0) (hcol : ∀ c, ∑ r, M r c = 0)
+    (F : Mat N D K) (t : Vec D K) :
+    fullForm M (fun r j => F r j + t j) = fullForm M F := by
+  funext i j
+  rw [fullForm_apply, fullForm_apply]
+  have h : ∀ r c, (F r i + t i) * M r c * (F c j + t j)
+      = F r i * M r c * F c j + t j * (F r i * M r c) + t i * (M r c * F c j) + t i * t j * M r c := by
+    intro r c
+    ring
+  have h2 : ∑ r, ∑ c, t j * (F r i * M r c) = 0 := by
+    simp only [← Finset.mul_sum, hrow, mul_zero, Finset.sum_const_zero]
+  have h3 : ∑ r, ∑ c, t i * (M r c * F c j) = 0 := by
+    rw [Finset.sum_comm]
+    simp only [← Finset.mul_sum, ← Finset.sum_mul, hcol, zero_mul, mul_zero, Finset.sum_const_zero]
+  have h4 : ∑ r, ∑ c, t i * t j * M r c = 0 := by
+    simp only [← Finset.mul_sum, hrow, mul_zero, Finset.sum_const_zero]
+  simp only [h, Finset.sum_add_distrib, h2, h3, h4, add_zero]
+
+/-- the LLTSA left-hand form does not depend on the origin of the feature space -/
+theorem fullForm_centredForm_translate (hN : (N : K) ≠ 0) (W : Mat N N K) (F : Mat N D K) (t : Vec D K) :
+    fullForm (centredForm W) (fun r j => F r j + t j) = fullForm (centredForm W) F :=
+  fullForm_translate (centredForm_row_sum hN W) (centredForm_col_sum hN W) F t
+
+/-- nor does the right-hand form `Fᵀ H F` -/
+theorem fullForm_centering_translate (hN : (N : K) ≠ 0) (F : Mat N D K) (t : Vec D K) :
+    fullForm centering (fun r j => F r j + t j) = fullForm centering F :=
+  fullForm_translate (centering_row_sum hN) (centering_col_sum hN) F t
+
+/-- the whole LLTSA problem is translation invariant -/
+theorem lltsaProblem_translate (hN : (N : K) ≠ 0) {W : Mat N N K} (hW : ∀ r c, W r c = W c r) (F : Mat N D K)
+    (t : Vec D K) :
+    lltsaProblem W (fun r j => F r j + t j) = lltsaProblem W F := by
+  rw [lltsa_returns hW, lltsa_returns hW, fullForm_centredForm_translate hN, fullForm_centering_translate hN]
 
 theorem two_fullForm_symm {W : Mat N N K} (hW : ∀ r c, W r c = W c r) (F : Mat N D K) (i j : Fin D) :
     (fun i j => 2 * fullForm W F i j) i j = (fun i j => 2 * fullForm W F i j) j i := by
@@ -255,10 +455,12 @@ theorem genSolveLower_npe {W : Mat N N K} (hW : ∀ r c, W r c = W c r) (F : Mat
   rw [lowerView_of_symm _ (two_fullForm_symm hW F), lowerView_of_symm _ (fullDiagForm_symm _ F)]
 
 theorem genSolveLower_lltsa {W : Mat N N K} (hW : ∀ r c, W r c = W c r) (F : Mat N D K) :
-    genSolveLower (lltsaProblem W F) = (fun i j => 2 * fullForm W F i j, fullForm centering F) := by
+    genSolveLower (lltsaProblem W F)
+      = (fun i j => 2 * fullForm (centredForm W) F i j, fullForm centering F) := by
   rw [lltsa_returns hW]
   show (Mat.lowerView _, Mat.lowerView _) = _
-  rw [lowerView_of_symm _ (two_fullForm_symm hW F), lowerView_of_symm _ (fullForm_centering_symm F)]
+  rw [lowerView_of_symm _ (two_fullForm_symm (centredForm_symm hW) F),
+    lowerView_of_symm _ (fullForm_centering_symm F)]
 
 theorem genSolveLower_lpp {L : Mat N N K} (hL : ∀ r c, L r c = L c r) (Dg : Vec N K) (F : Mat N D K) :
     genSolveLower (lppProblem L Dg F) = (fun i j => 2 * fullForm L F i j, fullDiagForm Dg F) := by
@@ -272,6 +474,11 @@ def refuteW : Mat 2 2 ℚ := fun r c => if r = c then 1 else 0
 def refuteF : Mat 2 2 ℚ := fun r j => if r = 0 ∧ j = 1 then 0 else 1
 
 theorem refuteW_symm : ∀ r c, refuteW r c = refuteW c r := by decide
+
+/-- `W 1 = 1`: a constant eigenvector with non-zero eigenvalue (a "shift-like" weight matrix) -/
+theorem refuteW_rowSums : ∀ r, rowSums refuteW r = 1 := by
+  rw [Fin.forall_fin_two]
+  constructor <;> simp [rowSums_apply, refuteW]
 
 /-- `Fᵀ W F = [[2,1],[1,1]]` has a non-zero off-diagonal entry -/
 theorem refute_fullForm_01 : fullForm refuteW refuteF 0 1 = 1 := by
